@@ -73,6 +73,9 @@ ASSUMPTIONS = [
     "Fisher metrics used: Gaussian = inverse covariance, Poisson = diag(1/lambda), Bernoulli = "
     "diag(1/(p(1-p))), Student-t = diag((theta+1)/(theta+3)); StandardHamiltonian adds the identity",
     "Linearization.outer and calling ducktape_left on a Linearization are outside the property",
+    ".imag of a complex expression whose Jacobian the library simplifies to ScalingOperator(0) (x - x): that "
+    "operator returns a real-typed zero field and Imaginizer rejects real input by design (explicit ValueError), "
+    "so the Jacobian cannot be applied; such recipes are discarded like .imag of real input",
     "ptw_sweep: documented range of an entry = all float64 arguments with |x| <= 448 (complex: |Re|,|Im| <= 112, "
     "so that no intermediate of the library's closed forms overflows) at which it is differentiable: "
     "sqrt/log/log10/non-integer or negative power: x > 0 (complex: off 0 and at least atan(1/16) off the negative "
@@ -1375,7 +1378,14 @@ def _compare(u, tree, keys, ora, plain, lin, wm, mode):
     require(lin.jac.target is lin.val.domain, mode + "jac_target", "jac.target is not val.domain")
     require(lin.target is lin.val.domain, mode + "lin_target", "")
     require(bool(lin.want_metric) == bool(wm), mode + "want_metric_flag", f"{lin.want_metric} vs {wm}")
-    Jt = _dense(u, lin.jac, nx.TIMES)
+    try:
+        Jt = _dense(u, lin.jac, nx.TIMES)
+    except ValueError as e:
+        # x - x and the like: the library simplifies the Jacobian to ScalingOperator(0), which returns a
+        # real-typed zero field also for complex input, and Imaginizer rejects real input by design
+        if u.cplx and _has(tree, "imag") and _imaginizer_rejects(e):
+            raise Discard()
+        raise
     close(Jt, J, mode + "jacobian_vs_autodiff", tol=TOL, scale=sj,
           detail=f"\nnifty=\n{np.asarray(Jt)}\njax=\n{J}")
     JT, notes = J.T, []
